@@ -6,7 +6,7 @@ import YaegiVerif.Spec.GoConst
   first place (post-order) where the model of the unchanged interpreter and the Go-spec model part ways.
   The harness attaches the label to a failing input; KNOWN_FINDINGS.json lists the classes that are known
   (after the repairs of the third round: `typed-decl-mismatch` F03-18, `bool-shift-panic` F03-19,
-  `unmodelled:len-at-run-time` F03-20, `const-second-walk` / `block-interplay` F03-14).
+  `unmodelled:len-at-run-time` F03-20, `huge-literal` F03-21, `const-second-walk` / `block-interplay` F03-14).
   (Glue for reporting; no theorem depends on it.)
 -/
 namespace YaegiVerif.Const.Class
@@ -24,10 +24,14 @@ inductive Cmp3 where
   | same | typeOnly | value | yOkGReject | yRejectGOk | yCrash | yUnm
   deriving DecidableEq, Repr
 
+/-- same type; the result of a comparison, an untyped boolean constant for the specification, has type `bool` in the
+    interpreter (cfg.go: `n.typ = sc.getType("bool")`), which no program over the basic types can tell apart -/
+def tyAgree (a b : Ty) : Bool := a == b || (a == .t .bool && b == .u .bool)
+
 def compare (y : Res NS) (g : Res Spec.GV) : Cmp3 :=
   match y, g with
   | .ok n, .ok v =>
-    if n.ty == v.ty then (if sameVal v.ty (absRV n.rv) v.v then .same else .value)
+    if tyAgree n.ty v.ty then (if sameVal v.ty (absRV n.rv) v.v then .same else .value)
     else if sameVal v.ty (absRV n.rv) v.v || sameVal n.ty (absRV n.rv) v.v then .typeOnly else .value
   | .reject, .reject => .same
   | .ok _, _ => .yOkGReject
@@ -69,6 +73,9 @@ def labelNode (F : Facts) (env : Env) (e : CExpr) : String :=
   | .unm w => "unmodelled:" ++ w
   | _ =>
   match e with
+  | .int v =>
+    -- an integer literal of more than 512 bits: the toolchain refuses it, the interpreter has no limit on literals (F03-21)
+    if bitLen v > Spec.maxUntypedBits then "huge-literal" else "node-other"
   | .bin a x _ =>
     if isShiftAct a && c == .yCrash && goTy env.iota x == some (.u .bool) then "bool-shift-panic"
     else (match c with
@@ -116,8 +123,9 @@ def classifyDecl (F : Facts) (ctx : Ctx) (iota : Nat) (declT : Option BT) (e : C
       | some s => labelNode F env s
       | none =>
         -- every sub-expression agrees in a single walk: the declaration context makes the difference
-        (match declT with
-         | some _ => "typed-decl-other"
-         | none => if ctx == .var then "var-decl-other" else "const-second-walk")
+        if ctx == .const then "const-second-walk"
+        else (match declT with
+          | some _ => "typed-decl-other"
+          | none => "var-decl-other")
 
 end YaegiVerif.Const.Class
